@@ -1567,7 +1567,8 @@ class ABCGraphImporter(ABC):
             if (node_id_prop not in g.nodes[n].keys()) or (len(g.nodes[n][node_id_prop]) == 0):
                 g.nodes[n][node_id_prop] = str(uuid.uuid4())
         graph_string = '\n'.join(nx.generate_graphml(g))
-        return graph_string
+        # same label markup as the file variant (needed by the Neo4j importer)
+        return GraphML.networkx_to_neo4j(graph_string)
 
     @abstractmethod
     def delete_graph(self, *, graph_id: str) -> None:
